@@ -238,20 +238,26 @@ var errScriptUnfinished = fmt.Errorf("fault script not used up after 6 h of virt
 // runUntilDrained runs the simulation to the end of the fault script and then
 // for at most c02Bound more; it reports a connection that has not drained.
 func runUntilDrained(s *sim.CoreSim, cfg sim.CoreCfg, fs *sim.FateScript, app [2]sim.AppScript) error {
+	return runUntilDrainedAfter(s, cfg, fs, app, 0)
+}
+
+// runUntilDrainedAfter is runUntilDrained for runs whose faults also include
+// application stalls and scripted drop windows ending at faultsEnd (ms).
+func runUntilDrainedAfter(s *sim.CoreSim, cfg sim.CoreCfg, fs *sim.FateScript, app [2]sim.AppScript, faultsEnd int64) error {
 	// The script is finite in datagrams; it ends in time when its last
 	// scripted datagram has been emitted and the last outage is over.
 	scriptEnd := int64(-1)
 	prev := s.OnEmit
 	s.OnEmit = func(e *sim.Emitted) error {
 		if scriptEnd < 0 && s.Stats.Emitted[0] >= fs.Len(0) && s.Stats.Emitted[1] >= fs.Len(1) {
-			scriptEnd = max(e.At, fs.EndTime()) + int64(s.Stats.MaxDeliveredDelay)
+			scriptEnd = max(e.At, fs.EndTime(), faultsEnd) + int64(s.Stats.MaxDeliveredDelay)
 		}
 		if prev != nil {
 			return prev(e)
 		}
 		return nil
 	}
-	err := s.Run(1_500_000)
+	err := s.Run(max(1_500_000, faultsEnd))
 	if err == nil && !s.Stats.Done && scriptEnd < 0 {
 		// Retransmission back-off can stretch a script counted in datagrams
 		// over hours (every ack of a one-way flow dropped 40 times in a row).
